@@ -26,14 +26,21 @@ VARIABLES
   reloaded,           \* a restart happened in this run
   ever,               \* <<role, block>> that have been buried >= ARD at a sync point of this run
   over,               \* a role that was final has been reorganised away (beyond the property)
-  canonHist, canon,   \* conclusions of the canonical run of the current history
-  direct,             \* chain key -> conclusions of the plain delivery of that chain
   v                   \* verdict of the last sync record
 
 tvars == <<hvars, target, l, tp, cf, ifc, gv, phase, kind, histId, failTrig, baseConf, inputs, reloaded,
-           ever, over, canonHist, canon, direct, v>>
+           ever, over, v>>
 
 Rec == ndJsonDeserialize(IOEnv.TRACE)
+
+\* The canonical run (plain whole-block delivery, kind "canon") of every history and the plain
+\* delivery of every chain from the starting state (kind "direct") are part of the same file; their
+\* sync records are looked up here (computed once).
+SyncLines(k) == {i \in 1..Len(Rec) : Rec[i].ev = "sync" /\ Rec[i].kind = k}
+CanonMap == LET L == SyncLines("canon") IN
+  [p \in {<<Rec[i].hist, Rec[i].idx>> : i \in L} |-> CHOOSE i \in L : <<Rec[i].hist, Rec[i].idx>> = p]
+DirectMap == LET L == SyncLines("direct") IN
+  [p \in {Rec[i].key : i \in L} |-> CHOOSE i \in L : Rec[i].key = p]
 Objs == {"mon", "mgr"}
 NoConf == [r \in Roles |-> None]
 \* the recorded finding "claim of the funding output lost on rewind" is waived (KNOWN_FINDINGS)
@@ -41,8 +48,7 @@ WaiveFundingClaim == "C11_WAIVE" \in DOMAIN IOEnv /\ IOEnv.C11_WAIVE = "1"
 
 AllGood == [hist |-> TRUE, best |-> TRUE, funding |-> TRUE, closed |-> TRUE, relevant |-> TRUE,
             remembers |-> TRUE, irrev |-> TRUE, aBal |-> TRUE, aRel |-> TRUE, aClaims |-> TRUE,
-            aChans |-> TRUE, aEvents |-> TRUE, aMsgs |-> TRUE, aBcast |-> TRUE, aWatch |-> TRUE,
-            retract |-> TRUE]
+            aChans |-> TRUE, aEvents |-> TRUE, aMsgs |-> TRUE, retract |-> TRUE]
 
 TraceInit ==
   /\ l = 1
@@ -52,7 +58,6 @@ TraceInit ==
   /\ ifc = [o \in Objs |-> "none"] /\ gv = [o \in Objs |-> FALSE]
   /\ phase = "dead" /\ kind = "" /\ histId = 0 /\ failTrig = <<>> /\ baseConf = 0 /\ inputs = <<>>
   /\ reloaded = FALSE /\ ever = {} /\ over = FALSE
-  /\ canonHist = -1 /\ canon = <<>> /\ direct = <<>>
   /\ v = AllGood
 
 IsEvent(e) == l <= Len(Rec) /\ Rec[l].ev = e /\ l' = l + 1
@@ -70,17 +75,13 @@ TReset ==
      /\ fundingRole' = r.funding_role
      /\ kind' = r.kind /\ histId' = r.hist
      /\ failTrig' = r.failtrig /\ baseConf' = r.base_conf /\ inputs' = r.inputs
-     /\ canonHist' = IF r.kind = "canon" THEN r.hist ELSE canonHist
-     /\ canon' = IF r.kind = "canon" THEN <<>> ELSE canon
-     \* a "sched" run is judged against the canonical run of ITS history, which must precede it
-     /\ v' = [AllGood EXCEPT !.hist = (r.kind = "sched" => r.hist = canonHist)]
+     /\ v' = AllGood
   /\ target' = 0
   /\ tp' = [o \in Objs |-> 0] /\ cf' = [o \in Objs |-> NoConf]
   /\ ifc' = [o \in Objs |-> "none"] /\ gv' = [o \in Objs |-> FALSE]
   /\ phase' = "idle" /\ reloaded' = FALSE /\ ever' = {} /\ over' = FALSE
-  /\ UNCHANGED direct
 
-Same == UNCHANGED <<hvars, kind, histId, failTrig, baseConf, inputs, canonHist, canon, direct, ever, over>>
+Same == UNCHANGED <<hvars, kind, histId, failTrig, baseConf, inputs, ever, over>>
 
 TReload ==
   /\ IsEvent("reload") /\ phase = "idle"
@@ -89,7 +90,7 @@ TReload ==
 
 TBegin ==
   /\ IsEvent("begin") /\ phase = "idle"
-  /\ Rec[l].target \in Blocks
+  /\ MoveOK(target, Rec[l].target)
   /\ target' = Rec[l].target /\ phase' = "moving"
   /\ gv' = [o \in Objs |-> FALSE]
   /\ Same /\ UNCHANGED <<tp, cf, ifc, reloaded, v>>
@@ -158,25 +159,19 @@ TSync ==
   /\ LET r == Rec[l] f == Rec[l].f
          ov == over \/ Overturned(ever)
          i == r.idx
-         c == IF kind = "sched" /\ i <= Len(canon) THEN canon[i] ELSE r
+         hasCanon == <<histId, i>> \in DOMAIN CanonMap
+         c == IF kind = "sched" /\ hasCanon THEN Rec[CanonMap[<<histId, i>>]] ELSE r
          cmp == kind = "sched" /\ ~ov
          strictClaims == LiveOf(r.R.claims) = LiveOf(c.R.claims)
          waivedClaims == LiveNoFunding(r.R.claims) = LiveNoFunding(c.R.claims)
-         dkey == r.key
-         hasDirect == dkey \in DOMAIN direct /\ kind # "direct" /\ ~ov /\ ~Shallower /\ ~reloaded
-         d == IF hasDirect THEN direct[dkey] ELSE [bal |-> <<>>, rel |-> {}, claims |-> <<>>, chans |-> <<>>, grel |-> {}]
+         hasDirect == r.key \in DOMAIN DirectMap /\ kind # "direct" /\ ~ov /\ ~Shallower /\ ~reloaded
+         d == IF hasDirect THEN Rec[DirectMap[r.key]] ELSE r
+         dClaims == ToSet(LiveOf(d.R.claims))
      IN
      /\ over' = ov
      /\ ever' = ever \cup NowBuried
-     /\ canon' = IF kind = "canon" THEN Append(canon, r) ELSE canon
-     /\ direct' = IF kind = "direct"
-                  THEN [k \in DOMAIN direct \cup {dkey} |->
-                          IF k = dkey THEN [bal |-> r.R.bal, rel |-> Pairs(f.mrel), claims |-> LiveOf(r.R.claims),
-                                            chans |-> r.R.chans, grel |-> Pairs(f.grel)]
-                          ELSE direct[k]]
-                  ELSE direct
      /\ (cmp /\ WaiveFundingClaim /\ ~strictClaims /\ waivedClaims) => PrintT(<<"WAIVED", r.run, i>>)
-     /\ v' = [hist |-> (kind = "sched" => i <= Len(canon)),
+     /\ v' = [hist |-> (kind = "sched" => hasCanon),
               best |-> (BestBlockIs(f.mbest) /\ BestBlockIs(f.gbest)),
               funding |-> (ov \/ f.conf < 0 \/ FundingDepthIs(f.conf, baseConf)),
               closed |-> (ov \/ ClosedViewOK(f.open_bal, ever)),
@@ -189,18 +184,16 @@ TSync ==
               aChans |-> (cmp => r.R.chans = c.R.chans),
               aEvents |-> (cmp => r.S.evs = c.S.evs),
               aMsgs |-> (cmp => r.S.msgs = c.S.msgs),
-              aBcast |-> (cmp => LiveOf(r.S.bcast) = LiveOf(c.S.bcast)),
-              aWatch |-> (cmp => r.S.otw = c.S.otw),
               retract |-> (hasDirect =>
-                             /\ r.R.bal = d.bal
-                             /\ Pairs(f.mrel) = d.rel
+                             /\ r.R.bal = d.R.bal
+                             /\ Pairs(f.mrel) = Pairs(d.f.mrel)
                              \* everything a fresh delivery of this chain claims is (again) being claimed; a
                              \* claim made while the chain was higher may legitimately still be pending
-                             /\ (IF WaiveFundingClaim THEN ToSet(SelectSeq(d.claims, LAMBDA g : ~SpendsFunding(g))) \subseteq ToSet(r.R.claims)
-                                 ELSE ToSet(d.claims) \subseteq ToSet(r.R.claims))
-                             /\ (r.R.chans # <<>> => (r.R.chans = d.chans /\ Pairs(f.grel) = d.grel)))]
+                             /\ (IF WaiveFundingClaim THEN {g \in dClaims : ~SpendsFunding(g)} \subseteq ToSet(r.R.claims)
+                                 ELSE dClaims \subseteq ToSet(r.R.claims))
+                             /\ (r.R.chans # <<>> => (r.R.chans = d.R.chans /\ Pairs(f.grel) = Pairs(d.f.grel))))]
   /\ phase' = "idle"
-  /\ UNCHANGED <<hvars, target, tp, cf, ifc, gv, kind, histId, failTrig, baseConf, inputs, reloaded, canonHist>>
+  /\ UNCHANGED <<hvars, target, tp, cf, ifc, gv, kind, histId, failTrig, baseConf, inputs, reloaded>>
 
 TraceNext == TReset \/ TReload \/ TBegin \/ TConn \/ TDisc \/ TTxs \/ TBest \/ TUnconf \/ TNote \/ TSync
 
@@ -226,7 +219,5 @@ PendingClaimsDeliveryIndependent == v.aClaims
 ChannelsDeliveryIndependent == v.aChans
 EventsDeliveryIndependent == v.aEvents
 MessagesDeliveryIndependent == v.aMsgs
-BroadcastClaimsDeliveryIndependent == v.aBcast
-WatchedOutputsDeliveryIndependent == v.aWatch
 ShallowReorgRetracts == v.retract
 =============================================================================
